@@ -805,6 +805,10 @@ def group_f(out, tier):
               call(VR, "rq", "prediction"),
               call("BatchVisualSort", "t", "shard_stats")]
     out.add("f-batchresult", pre.steps + steps)
+    # different numbers of distance shards and voting threads: each lands in its own slot (one statistics entry
+    # per distance shard)
+    for ctor in (new("BatchVisualSort", "t", 2, 3, R("o")), new("BatchVisualSort", "t", voting_shards=2, distance_shards=3, opts=R("o"))):
+        out.add("f-batchresult", pre.steps + [steps[0], ctor] + steps[2:])
 
     # the handle taken from the request before predict() is where the Rust API delivers the results
     pre = Prelude()
@@ -883,6 +887,9 @@ def group_defaults(out, tier):
             "doc": dict(zip(names, ([4, 4] if batch else [4]) + [1, 5, R("pm_maha"), 0.05, None, 0.05, 0.00625])),
             # a configuration in which min_confidence decides an association (IoU 1.0 x 0.05 against 0.04)
             "alt": dict(zip(names, ([1, 1] if batch else [1]) + [3, 2, R("pm_iou"), 0.05, None, 0.1, 0.01])),
+            # every numeric argument different from every other one: an argument that lands in a neighbour's slot
+            # shows (the shard statistics have one entry per distance shard)
+            "asym": dict(zip(names, ([2, 3] if batch else [3]) + [4, 6, R("pm_maha"), 0.07, None, 0.08, 0.009])),
         }
         metric_steps = [static(PM, "maha", "pm_maha"), static(PM, "iou", "pm_iou", 0.04)]
         for bname, base in bases.items():
@@ -890,6 +897,10 @@ def group_defaults(out, tier):
             probe = sort_probe(pre, cls, batch)
             control = out.add("g-defaults", metric_steps + [new(cls, "t", **base)] + pre.steps + probe,
                               variant=f"{cls}:{bname}:explicit")
+            if bname == "asym":
+                out.add("g-defaults", metric_steps + [new(cls, "t", *[base[n] for n in names])] + pre.steps + probe,
+                        variant=f"{cls}:{bname}:positional")
+                continue
             for omit in names:
                 kw = {k: v for k, v in base.items() if k != omit}
                 if bname == "alt" and base[omit] != bases["doc"][omit] and omit != "method":
